@@ -1057,7 +1057,7 @@ int cms_signed_data_sign_to_der(
 	uint8_t content_header[256];
 	size_t content_header_len;
 	size_t certs_len = 0;
-	uint8_t signer_infos[512];
+	uint8_t signer_infos[2048];
 	size_t signer_infos_len = 0;
 	SM3_CTX sm3_ctx;
 	const uint8_t *issuer;
@@ -1747,13 +1747,13 @@ int cms_signed_and_enveloped_data_encipher_to_der(
 	const uint8_t *shared_info2, size_t shared_info2_len,
 	uint8_t **out, size_t *outlen)
 {
-	uint8_t rcpt_infos[512];
+	uint8_t rcpt_infos[2048];
 	size_t rcpt_infos_len = 0;
 	int digest_algors[] = { OID_sm3 };
 	size_t digest_algors_cnt = sizeof(digest_algors)/sizeof(int);
 	uint8_t content_info_header[256];
 	size_t content_info_header_len = 0;
-	uint8_t signer_infos[512];
+	uint8_t signer_infos[2048];
 	size_t signer_infos_len = 0;
 	SM3_CTX sm3_ctx;
 	const uint8_t *issuer;
